@@ -191,7 +191,8 @@ GOTRANS = {"gocircuit": "GoCircuit", "gohopener": "GoHOpener", "gohcloser": "GoH
            "gorciclear": "GoRCIClear", "gorciadv": "GoRCIAdv", "gorciops": "GoRCIOps", "gotci": "GoTCI", "gocalli": "GoCallI",
            "goisbadrequest": "GoIsBadRequest", "gocircuiterror": "GoCircuitError", "gosimplebadrequest": "GoSimpleBadRequest",
            "goatomicboolean": "GoAtomicBoolean", "goatomicint64": "GoAtomicInt64",
-           "gonewrc": "GoNewRC", "gonewrp": "GoNewRP", "gorcwall": "GoRCWall", "gorpsnap": "GoRPSnap", "godbiter": "GoDBIter", "gosdvar": "GoSDVar"}
+           "gonewrc": "GoNewRC", "gonewrp": "GoNewRP", "gorcwall": "GoRCWall", "gorpsnap": "GoRPSnap", "godbiter": "GoDBIter", "gosdvar": "GoSDVar",
+           "gostatsrun": "GoStatsRun", "gostatsfb": "GoStatsFb", "gostatsfactory": "GoStatsFactory", "gostatsfind": "GoStatsFind"}
 
 def regenerate(name):
     """re-run an extractor on REPO's working tree and (re)write lean/Generated/<file> if it changed.
